@@ -141,7 +141,15 @@ def assemble(unit_path, variant=None):
                 text, lmap, src, log, labels, it = X.extract_segment(p["relpath"], qual, ann)
                 qual = ann["seg_name"]
             else:
-                text, lmap, src, log, labels, it = X.extract_fn(p["relpath"], qual, ann)
+                try:
+                    text, lmap, src, log, labels, it = X.extract_fn(p["relpath"], qual, ann)
+                except X.Inconclusive as e:
+                    # a HELPER under contract (flag `optional`) that no longer exists is skipped and logged: its callers are still verified,
+                    # and cannot call it any more; the property-level clauses live on them
+                    if ann.get("optional") and "not found" in str(e):
+                        A.rewrites.append({"file": p["relpath"], "line": 0, "rule": "A0", "note": f"optional helper {qual} no longer exists: its contract is skipped"})
+                        return
+                    raise
             if "aborts" in p:
                 A.aborts[qual] = p["aborts"]
             start = len(A.lines) + 1
@@ -290,6 +298,7 @@ def assemble(unit_path, variant=None):
                     ann["ensures"] = [("proved_in." + kv["from"] + "." + l.replace(".", "_"), t) for (l, t) in ens]
                     ann["imported_from"] = kv["from"]
                 if "inherent" in flags: ann["inherent"] = True
+                if "optional" in flags: ann["optional"] = True
                 if "keepattrs" in flags: ann["drop_response_attrs"] = False
                 pending = {"kind": "fn", "relpath": relpath, "qual": qual, "ann": ann}
                 if "from" in kv:
